@@ -511,14 +511,17 @@ func (cs *connState) handleRequest() bool {
 		return false
 	}
 
-	messageSize := atomic.LoadUint32(&cs.messageSize)
-	if messageSize == 0 {
-		// Default or not yet negotiated.
-		messageSize = maximumLength
-	}
-
-	// Receive a message.
-	tag, m, err := recv(cs.server.log, cs.t, messageSize, msgDotLRegistry.get)
+	// Receive a message. The size limit is read when the message arrives:
+	// this goroutine may have been waiting here since before a Tversion
+	// changed it.
+	tag, m, err := recvLimit(cs.server.log, cs.t, func() uint32 {
+		messageSize := atomic.LoadUint32(&cs.messageSize)
+		if messageSize == 0 {
+			// Default or not yet negotiated.
+			messageSize = maximumLength
+		}
+		return messageSize
+	}, msgDotLRegistry.get)
 	if errSocket, ok := err.(ConnError); ok {
 		if errSocket.error != io.EOF {
 			// Connection problem; stop serving.
